@@ -6,11 +6,13 @@
 //	      -> own=<samples reported by Shoot> hook=<samples reported by the Connect hook> [tags proto net id] late=<k> shape=<timeout>:<shape> reqs=<requests the target saw>
 //	      (every gun-level observation prints the samples AS THEY ARE AT THE MOMENT OF Report - the
 //	      aggregator owns them from then on - and late=<number of samples written to after Report>)
-//	hscen <name> <step>,<step>...      step = <name>:<kind>, kind: s<status> reset trunc pp<status> tmpl pre
+//	hscen <name> <step>,<step>...      step = <name>:<kind>[:<tag>], kind: s<status> reset trunc pp<status> tmpl pre;
+//	      <tag> = the tag the request declares (gun.Request.Tag; the sample is labelled with the NAME)
 //	      -> n=<samples> tags:proto:net ...
 //	gshoot <tag> <kind>                 kind: st<code> unknown badpayload
 //	      -> n=<samples> tags:proto:net
-//	gscen <name> <step>,<step>...      step = <tag>:<kind>, kind: st<code> badcall badpayload tmpl pre post<code>
+//	gscen <name> <step>,<step>...      step = <tag>:<kind>[:<call name>], kind: st<code> badcall badpayload tmpl pre post<code>
+//	      (the sample is labelled with the call's TAG; the name defaults to step<i>)
 //	      -> n=<samples> tags:proto:net ...
 package main
 
@@ -445,7 +447,11 @@ func runHScen(f []string) string {
 	if f[2] != "-" {
 		for _, st := range strings.Split(f[2], ",") {
 			nm, kind, _ := strings.Cut(st, ":")
+			kind, declTag, _ := strings.Cut(kind, ":")
 			r := httpscen.Request{Method: "GET", Name: string(vh.UnHex(nm)), URI: "/x", Templater: nopTemplater{}}
+			if declTag != "" {
+				r.Tag = string(vh.UnHex(declTag))
+			}
 			switch {
 			case kind == "reset" || kind == "trunc":
 				r.Headers = map[string]string{"X-Verif": kind + ":200"}
@@ -555,8 +561,12 @@ func runGScen(f []string) string {
 	if f[2] != "-" {
 		for i, st := range strings.Split(f[2], ",") {
 			tg, kind, _ := strings.Cut(st, ":")
+			kind, callName, _ := strings.Cut(kind, ":")
 			c := grpcscen.Call{Name: fmt.Sprintf("step%d", i), Tag: string(vh.UnHex(tg)), Call: helloMethod,
 				Payload: []byte(`{"name":"x"}`), Metadata: map[string]string{}}
+			if callName != "" {
+				c.Name = string(vh.UnHex(callName))
+			}
 			switch {
 			case kind == "badcall":
 				c.Call = "target.TargetService.NoSuchMethod"
@@ -663,13 +673,28 @@ func genGuns(r *vh.Rand, tier string) []string {
 	// HTTP scenarios: every failing kind at every position of a 3-step scenario, then random ones
 	hkinds := []string{"reset", "trunc", "pp200", "pp500", "tmpl", "pre"}
 	names := []string{"a", "b2", "step three", "x.y"}
+	// what the step declares besides the field its sample is labelled with (HTTP: the request's tag,
+	// gRPC: the call's name): absent, equal to the label, shared by several steps, something else
+	other := func(label string) string {
+		switch r.Intn(5) {
+		case 0:
+			return ""
+		case 1:
+			return ":" + vh.HexS(label)
+		case 2:
+			return ":" + vh.HexS("shared")
+		case 3:
+			return ":" + vh.HexS(r.Pick([]string{"t", "tag with space", "a|b", "order"}))
+		}
+		return ":" + vh.HexS(r.Pick(names))
+	}
 	for pos := 0; pos < 3; pos++ {
 		for _, k := range hkinds {
 			st := []string{"s200", "s404", "s500"}
 			st[pos] = k
 			var parts []string
 			for i, x := range st {
-				parts = append(parts, vh.HexS(names[i])+":"+x)
+				parts = append(parts, vh.HexS(names[i])+":"+x+other(names[i]))
 			}
 			out = append(out, "hscen "+vh.HexS("sc")+" "+strings.Join(parts, ","))
 		}
@@ -687,9 +712,23 @@ func genGuns(r *vh.Rand, tier string) []string {
 			if r.Chance(1, 6) {
 				kind = r.Pick(hkinds)
 			}
-			parts = append(parts, vh.HexS(r.Pick(names))+":"+kind)
+			nm := r.Pick(names)
+			parts = append(parts, vh.HexS(nm)+":"+kind+other(nm))
 		}
 		out = append(out, "hscen "+vh.HexS(r.Pick([]string{"sc", "my scenario", "s|t"}))+" "+strings.Join(parts, ","))
+	}
+	// a call's name identifies the call in the scenario file (the provider's registry is keyed by it, the gun's
+	// template cache too): two DIFFERENT calls never share a name; the same call may be repeated
+	callName := func(used map[string]string, tag, kind string) string {
+		o := other(tag)
+		if o == "" {
+			return ""
+		}
+		if c, ok := used[o]; ok && c != tag+":"+kind {
+			return ""
+		}
+		used[o] = tag + ":" + kind
+		return o
 	}
 	// gRPC gun: every status code 0..20 and beyond, unknown method, payload that does not fit
 	for c := 0; c <= 20; c++ {
@@ -702,8 +741,9 @@ func genGuns(r *vh.Rand, tier string) []string {
 			st := []string{"st0", "st5", "st13"}
 			st[pos] = k
 			var parts []string
+			used := map[string]string{}
 			for i, x := range st {
-				parts = append(parts, vh.HexS(names[i])+":"+x)
+				parts = append(parts, vh.HexS(names[i])+":"+x+callName(used, names[i], x))
 			}
 			out = append(out, "gscen "+vh.HexS("gs")+" "+strings.Join(parts, ","))
 		}
@@ -716,12 +756,14 @@ func genGuns(r *vh.Rand, tier string) []string {
 	for i := 0; i < ng; i++ {
 		k := r.Range(1, 4)
 		var parts []string
+		used := map[string]string{}
 		for j := 0; j < k; j++ {
 			kind := fmt.Sprintf("st%d", r.Range(0, 17))
 			if r.Chance(1, 6) {
 				kind = r.Pick(gkinds)
 			}
-			parts = append(parts, vh.HexS(r.Pick(names))+":"+kind)
+			tg := r.Pick(names)
+			parts = append(parts, vh.HexS(tg)+":"+kind+callName(used, tg, kind))
 		}
 		out = append(out, "gscen "+vh.HexS(r.Pick([]string{"gs", "my scenario"}))+" "+strings.Join(parts, ","))
 	}
